@@ -534,6 +534,18 @@ distinct = distinct elevation strings / azimuth-list pairs; oracle = 10-line ref
         }
     }
 
+    // one merge of more than 65,536 radials (and one of exactly that many): positions in the
+    // combined list no longer fit sixteen bits
+    for (la, lb, tag) in [(40_000usize, 30_000usize, 70u64), (32_768, 32_768, 65), (65_535, 2, 66)] {
+        if ctx.shadow && tag != 70 {
+            continue;
+        }
+        let a: Vec<u16> = (0..la).map(|_| rng.range(1, 720) as u16).collect();
+        let b: Vec<u16> = (0..lb).map(|_| rng.range(1, 720) as u16).collect();
+        check_merge_ident(ctx, 5, &a, 5, &b, false, mix(0xb16, tag));
+        ctx.obs.count("merges_of_tens_of_thousands_of_radials", 1);
+    }
+
     // random merge
     let n = ctx.tier.pick(20_000, 400_000);
     for i in 0..n {
